@@ -101,6 +101,10 @@ class Env:
         self.units = dict(units or {})         # slot -> unit string (C10)
         self._cache = parent._cache if parent is not None else {}
         self.sources = parent.sources if parent is not None else {}   # slot -> Source (C13)
+        # skeleton-level defaults (slot -> number) and units (slot -> unit string), adopted from the spec by build():
+        # they rank below explicit values and symbolic slots, above the class defaults of PARAMS
+        self.defaults = parent.defaults if parent is not None else {}
+        self.default_units = parent.default_units if parent is not None else {}
 
     def child(self, values=None, units=None, symbolic=None):
         e = Env(self.ctx, {**self.symbolic, **(symbolic or {})}, {**self.values, **(values or {})},
@@ -114,7 +118,21 @@ class Env:
             if slot not in self._cache:
                 self._cache[slot] = self.ctx.var(slot, **self.symbolic[slot])
             return self._cache[slot]
-        return default
+        return self.defaults.get(slot, default)
+
+    def adopt(self, spec):
+        d = spec.get("env_defaults") or {}
+        self.defaults.update(d.get("values", {}))
+        self.default_units.update(d.get("units", {}))
+
+    def unit_of(self, slot, unit):
+        """unit the slot is expressed in: explicit (C10) > skeleton default (only for slots that are neither symbolic nor
+        given explicitly: a symbolic range is stated in the class default unit) > class default"""
+        if slot in self.units:
+            return self.units[slot]
+        if slot in self.default_units and slot not in self.symbolic and slot not in self.values:
+            return self.default_units[slot]
+        return unit
 
     def fresh(self, name, **spec):
         """An extra variable (e.g. the new value of an edited slot)."""
@@ -123,7 +141,7 @@ class Env:
         return self._cache[name]
 
     def quantity(self, slot, default, unit):
-        unit = self.units.get(slot, unit)
+        unit = self.unit_of(slot, unit)
         return self.get(slot, default) * u(unit)
 
     def sv(self, slot, default, unit, label=None):
@@ -166,6 +184,7 @@ def _nm(name, o):
 
 def build(spec, env, order=None, make_system=True):
     """Build real objects from spec.  Returns dict name -> object (plus 'system')."""
+    env.adopt(spec)
     objs = {}
     for name, o in spec.get("storages", {}).items():
         objs[name] = Storage(_nm(name, o), **_kw(env, name, "storage"), fixed_nb_of_instances=_fixed(env, name, o))
@@ -259,6 +278,44 @@ def T1d(n=2, same_names=False):
     return s
 
 
+def TX(n=2, shared=False):
+    """"everything at once": two servers/storages, three jobs (one twice in a step, one in two steps), a step longer than
+    an hour, two journeys, a usage pattern with two devices named alike, two countries on one network, a second
+    network, a third pattern starting hours later (disjoint windows), a storage that expires data within the period and
+    has an initial need, several inputs given in other units than the class defaults.  shared=True additionally lets the
+    two journeys share a step (job shared by usage patterns: topology of finding R1)."""
+    from datetime import timedelta
+    s = {
+        "storages": {"st": {}, "st2": {}},
+        "servers": {"srv": {"storage": "st"}, "srv2": {"storage": "st2", "server_type": "serverless"}},
+        "jobs": {"job": {"server": "srv"}, "job2": {"server": "srv2"}, "job3": {"server": "srv"}},
+        "steps": {"step1": {"jobs": ["job", "job"]}, "step2": {"jobs": ["job2"]}, "step3": {"jobs": ["job3", "job2"] if shared else ["job3"]}},
+        "journeys": {"uj": {"steps": ["step1", "step2"]}, "uj2": {"steps": ["step3", "step2"] if shared else ["step3"]}},
+        "devices": {"dev": {"name": "laptop"}, "dev2": {"name": "laptop"}, "dev3": {}},
+        "countries": {"fr": {"tz": "Europe/Paris"}, "de": {"tz": "Europe/Berlin"}, "my": {"tz": "Asia/Kuala_Lumpur"}},
+        "networks": {"net": {}, "net2": {}},
+        "patterns": {"up": _pattern("uj", devices=("dev", "dev2"), network="net", country="fr", n=n),
+                     "up2": _pattern("uj2", devices=("dev3",), network="net", country="de", n=n, default=[2, 1, 3]),
+                     "up3": _pattern("uj2", devices=("dev3",), network="net2", country="my", n=n, default=[3, 1, 2],
+                                     start=DEFAULT_START + timedelta(hours=n + 6))},
+        "system": {"patterns": ["up", "up2", "up3"]},
+        "env_defaults": {
+            "values": {"st.base_storage_need": 0.375, "st.data_storage_duration": 2.5, "st.data_replication_factor": 2,
+                       "st2.storage_capacity": 512, "srv.ram": 0.125, "srv.base_ram_consumption": 1.5,
+                       "job2.data_transferred": 0.002, "job3.ram_needed": 0.0625, "job3.data_stored": 250,
+                       "step1.user_time_spent": 70, "step2.user_time_spent": 0.25, "dev2.lifespan": 1461, "dev2.power": 0.035,
+                       "dev3.fraction_of_usage_time": 0.125, "de.average_carbon_intensity": 0.4, "my.average_carbon_intensity": 600,
+                       "net2.bandwidth_energy_intensity": 0.125, "srv2.power_usage_effectiveness": 1.5,
+                       "srv2.average_carbon_intensity": 0.25},
+            "units": {"st.data_storage_duration": "hour", "st2.storage_capacity": "GB", "srv.ram": "TB", "job2.data_transferred": "GB",
+                      "job3.ram_needed": "GB", "step2.user_time_spent": "hour", "dev2.lifespan": "day", "dev2.power": "kW",
+                      "dev3.fraction_of_usage_time": "dimensionless", "de.average_carbon_intensity": "kg/kWh",
+                      "net2.bandwidth_energy_intensity": "Wh/MB", "srv2.average_carbon_intensity": "kg/kWh"},
+        },
+    }
+    return s
+
+
 def T1e(n=2):
     """T1 with a second, empty step (no job) in the journey"""
     s = T1(n)
@@ -343,7 +400,7 @@ def T9(n=2):
     return s
 
 
-SKELETONS = {"T9": T9, "T2c": T2c, "T1e": T1e, "T1d": T1d, "T1": T1, "T2": T2, "T3": T3, "T4": T4, "T5": T5, "T7": T7, "T8": T8}
+SKELETONS = {"T9": T9, "T2c": T2c, "T1e": T1e, "T1d": T1d, "TX": TX, "T1": T1, "T2": T2, "T3": T3, "T4": T4, "T5": T5, "T7": T7, "T8": T8}
 
 
 def spec_copy(spec):
